@@ -108,8 +108,7 @@ func (b *ByteWrap[T]) UnmarshalCBORStream(r io.Reader, o DecoderOptions, flatten
 	r = io.LimitReader(r, int64(n))
 
 	if bs, ok := any(&b.Val).(*[]byte); ok {
-		*bs = make([]byte, n)
-		_, err := io.ReadFull(r, *bs)
+		*bs, err = readBytes(r, n)
 		return err
 	}
 
@@ -149,8 +148,8 @@ func (c *X509Certificate) UnmarshalCBORStream(r io.Reader, o DecoderOptions, fla
 		return err
 	}
 
-	der := make([]byte, n)
-	if _, err := io.ReadFull(r, der); err != nil {
+	der, err := readBytes(r, n)
+	if err != nil {
 		return err
 	}
 	cert, err := x509.ParseCertificate(der)
@@ -189,8 +188,8 @@ func (c *X509CertificateRequest) UnmarshalCBORStream(r io.Reader, o DecoderOptio
 		return err
 	}
 
-	der := make([]byte, n)
-	if _, err := io.ReadFull(r, der); err != nil {
+	der, err := readBytes(r, n)
+	if err != nil {
 		return err
 	}
 	csr, err := x509.ParseCertificateRequest(der)
